@@ -504,7 +504,9 @@ def generate(rng, tier, index):
             else:
                 ops.append(["call", fk, iid, rd])
     cfg = {"fault_free": not (allow_invalid_assign or allow_preempt), "scribble": rng.chance(0.3),
-           "logging": rng.weighted([("quiet", 5), ("default", 2), ("debug", 3)])}
+           "logging": rng.weighted([("quiet", 5), ("default", 2), ("debug", 3)]), "clock": core.gen_clock(rng)}
+    if rng.chance(0.01):
+        cfg["import_env"] = rng.choice(core.IMPORT_ENVS)
     if rng.chance(0.3):
         # two real client threads (baton passing): which one performs each operation
         p1 = rng.choice([0.2, 0.5])
@@ -545,6 +547,7 @@ class _Violation(Exception):
 
 def execute(trace):
     """Pure function of (trace, code under test).  Returns the run record."""
+
     import numpy as np
     xfab = core.import_xfab()
     from xfab import tools, laue, symmetry
@@ -808,7 +811,8 @@ def execute(trace):
                 raise _Violation("invalid input accepted while switched on", fk,
                                  "%s kind=%s -> %s" % (inp["cls"], inp["kind"], outcome))
 
-    with warnings.catch_warnings(), np.errstate(all="ignore"), core.log_config(trace["config"].get("logging", "quiet")):
+    clock = core.sim_clock(trace["config"].get("clock"))
+    with warnings.catch_warnings(), np.errstate(all="ignore"), core.log_config(trace["config"].get("logging", "quiet")), clock:
         warnings.simplefilter("ignore")
         count("logging." + (trace["config"].get("logging") or "quiet"))
         try:
@@ -980,6 +984,10 @@ def shrink_candidates(trace):
     if thr:
         t = copy.deepcopy(trace)
         del t["config"]["threads"]
+        yield t
+    if trace["config"].get("import_env"):
+        t = copy.deepcopy(trace)
+        del t["config"]["import_env"]
         yield t
     for i, op in enumerate(ops):
         if op[0] == "pcall":
